@@ -1,7 +1,7 @@
 """C02 — portable form is a faithful image of the compile-time definition.
 R2.1 field provenance of every IntoPortable impl (type-directed), R2.2 variant preservation,
 R2.3 element-wise helpers, R2.4 cycle cut (= R1.2)."""
-from ..lib import facts, mir, paths
+from ..lib import facts, mir, paths, loops
 from ..lib.mir import path_str, is_call, unref, is_adt_agg, agg_field
 from . import common_registry as cr
 from . import common_identity as ci
@@ -94,7 +94,7 @@ def check_config(chk, prog, cfg):
             chk.expect(ok, "R2.1", "impl:%s:Output" % short, imp["loc"], "Output = %s" % ot["s"], cfg)
         if adt["kind"] == "struct":
             # a constructor call (`TypeDefX::new_portable(..)`) is judged by what reaches the fields
-            rt = mir.inline_call(prog, rt)
+            rt = mir.simplify(mir.inline_call(prog, rt))
             if not is_adt_agg(rt, st["d"]):
                 chk.unrecognised("R2.1", "impl:" + short, b.where(), "into_portable does not end in a %s{..} aggregate: %s" % (short, path_str(rt)[:300]), cfg)
                 continue
@@ -111,32 +111,27 @@ def check_config(chk, prog, cfg):
     check_helpers(chk, prog, cfg)
 
 
-def elem_fn_ok(prog, b, fterm, elem_ty, REG):
-    """is `fterm` (fn item or closure) the element transfer function for type elem_ty?"""
+def lam_ok(prog, b, lam, elem_ty, REG, creg_is_upvar=False):
+    """is `lam` the element transfer function for type elem_ty?  (closure, fn item or loop body alike)"""
     et = prog.ty(elem_ty)
-    f = unref(fterm)
-    if f[0] == "fn":
+    if lam.kind == "fn":
         if is_proj(et, "String"):
-            return f[1] in ("core::convert::Into::into", "core::convert::From::from"), "fn item %s" % f[1]
-        return False, "fn item %s used for a non-string element" % f[1]
-    cl, ups = mir.closure_of(fterm)
-    if cl:
-        cb = prog.body(cl)
-        if cb is None:
-            return False, "closure body missing"
-        item = ("arg", 2, cb.names.get(2))
-        # registry upvar: `_1.0` (captured &mut Registry)
-        creg = None
-        for i, u in enumerate(ups):
-            if unref(u) == REG:
-                creg = ("field", ("arg", 1, cb.names.get(1)), i, str(i), None)
-        ok, why = conv(prog, cb, cb.return_term(), elem_ty, (item, ""), creg, creg_is_upvar=True)
-        return ok, "closure: " + why
-    return False, "unrecognised element function %s" % path_str(fterm)
+            return lam.fn in ("core::convert::Into::into", "core::convert::From::from"), "fn item %s" % lam.fn
+        return False, "fn item %s used for a non-string element" % lam.fn
+    res = mir.simplify(lam.outer(lam.result)) if lam.upvars is not None else mir.simplify(lam.result)
+    ok, why = conv(prog, lam.body, res, elem_ty, (lam.item, ""), REG, creg_is_upvar=creg_is_upvar, outer_body=b)
+    return ok, "%s: %s" % (lam.kind, why)
+
+
+def elem_fn_ok(prog, b, fterm, elem_ty, REG):
+    lam = loops.lam_of(prog, fterm)
+    if lam is None:
+        return False, "unrecognised element function %s" % path_str(fterm)
+    return lam_ok(prog, b, lam, elem_ty, REG)
 
 
 def same_place(b, t, src):
-    ap = paths.access_path(b, t)
+    ap = paths.access_path(b, t, roots=[src[0]])
     return ap is not None and ap[0] == src[0] and paths.norm(ap[1]) == src[1]
 
 
@@ -152,11 +147,16 @@ def is_reg(b, t, REG, upvar=False):
     return False
 
 
-def conv(prog, b, val, tyix, src, REG, creg_is_upvar=False):
-    """Is `val` the image of place `src` (root, path) of declared type `tyix` under the homomorphism?"""
+def conv(prog, b, val, tyix, src, REG, creg_is_upvar=False, outer_body=None):
+    """Is `val` the image of place `src` (root, path) of declared type `tyix` under the homomorphism?
+    (`val` and `src` are terms of body `b`; inside a closure, captured values have already been rewritten to the outer body's terms)"""
     t = prog.ty(tyix)
     if val is None:
         return False, "field missing from the aggregate"
+    val = mir.simplify(val)
+    if val[0] == "call" and val[1].get("trait") is None and not val[1]["name"].startswith("scale_info::registry::Registry::"):
+        # a private helper (e.g. `docs_into_portable(self.docs)`) is judged by what it computes
+        val = mir.simplify(mir.inline_call(prog, val))
     isreg = lambda x: is_reg(b, x, REG, creg_is_upvar)
     if is_proj(t, "Type"):
         ok = is_call(val, "Registry::register_type", nargs=2) and isreg(val[2][0]) and same_place(b, val[2][1], src)
@@ -165,6 +165,9 @@ def conv(prog, b, val, tyix, src, REG, creg_is_upvar=False):
         ok = (is_call(val, "core::convert::Into::into", nargs=1) or is_call(val, "core::convert::From::from", nargs=1)) and same_place(b, val[2][0], src)
         if not ok and is_call(val, "into_portable", nargs=2):
             ok = same_place(b, val[2][0], src) and isreg(val[2][1])
+        if not ok and not mir.calls_in(val):
+            # both forms use the same string type in this configuration (the T -> T conversion is the identity): a plain move type-checks only then
+            ok = same_place(b, val, src)
         return ok, "expected Into::into(<same field>)"
     if t["k"] == "adt":
         d = t["d"]
@@ -174,18 +177,19 @@ def conv(prog, b, val, tyix, src, REG, creg_is_upvar=False):
             return False, "expected Option::map(<same field>, f)"
         if d == "alloc::vec::Vec":
             et = prog.ty(t["a"][0])
-            if is_proj(et, "Type"):
-                ok = is_call(val, "Registry::register_types", nargs=2) and isreg(val[2][0]) and same_place(b, val[2][1], src)
-                return ok, "expected register_types(registry, <same field>)"
-            if et["k"] == "adt" and et["d"] in prog.adts:
-                ok = is_call(val, "Registry::map_into_portable", nargs=2) and isreg(val[2][0]) and same_place(b, val[2][1], src)
-                return ok, "expected map_into_portable(registry, <same field>)"
-            # element-wise map/collect
-            if is_call(val, "collect", nargs=1) and is_call(val[2][0], "core::iter::traits::iterator::Iterator::map", nargs=2):
-                it, f = val[2][0][2]
-                if is_call(it, "into_iter", nargs=1) and same_place(b, it[2][0], src):
-                    return elem_fn_ok(prog, b, f, t["a"][0], REG)
-            return False, "expected <same field>.into_iter().map(f).collect()"
+            # the crate's element-wise helpers (their own bodies are judged by R2.3) ...
+            if is_proj(et, "Type") and is_call(val, "Registry::register_types", nargs=2):
+                return isreg(val[2][0]) and same_place(b, val[2][1], src), "expected register_types(registry, <same field>)"
+            if et["k"] == "adt" and et["d"] in prog.adts and is_call(val, "Registry::map_into_portable", nargs=2):
+                return isreg(val[2][0]) and same_place(b, val[2][1], src), "expected map_into_portable(registry, <same field>)"
+            # ... or any spelling of "apply the element transfer function to each item in order": map/collect with a closure or fn item, or a push loop
+            sm = loops.seq_map(prog, b, val)
+            if sm is not None:
+                it, lam = sm
+                if not same_place(b, it, src):
+                    return False, "the mapped sequence is %s, not the same field" % path_str(it)[:80]
+                return lam_ok(prog, b, lam, t["a"][0], REG, creg_is_upvar)
+            return False, "expected the element transfer function applied to each item of <same field> in order"
         if d == "core::marker::PhantomData":
             return True, "marker"
         if d in prog.adts:
@@ -209,8 +213,9 @@ def check_enum(chk, prog, b, adt, st, rt, cfg):
         ok = False
         why = path_str(a)[:200]
         vname = None
-        if is_call(a, "into", nargs=1) or is_call(a, "from", nargs=1):
-            inner = a[2][0]
+        direct = a[0] == "agg" and a[1] == "adt" and a[2].get("adt") == st["d"] and len(a[3]) == 1
+        if is_call(a, "into", nargs=1) or is_call(a, "from", nargs=1) or direct:
+            inner = a[3][0] if direct else a[2][0]
             payload = inner
             if is_call(inner, "into_portable", nargs=2):
                 payload = inner[2][0]
@@ -221,8 +226,8 @@ def check_enum(chk, prog, b, adt, st, rt, cfg):
             if p[0] == "field" and p[1][0] == "downcast" and unref(p[1][1]) == SELF:
                 vname = p[1][3]
                 # which variant does the From impl build?
-                ri = a[1].get("name")
-                tgt = from_builds_variant(prog, a)
+                ri = "TypeDef::%s(..)" % a[2].get("vname") if direct else a[1].get("name")
+                tgt = a[2].get("vname") if direct else from_builds_variant(prog, a)
                 ok = reg_ok and tgt == vname
                 why = "arm %s builds variant %s via %s" % (vname, tgt, ri)
                 # payload conversion matches payload type
@@ -290,21 +295,20 @@ def check_helpers(chk, prog, cfg):
         b = cr.anchor(chk, prog, fn)
         if b is None:
             continue
-        rt = b.return_term()
+        rt = mir.simplify(b.return_term())
         ok = False
         detail = path_str(rt)[:300]
-        if is_call(rt, "collect", nargs=1) and is_call(rt[2][0], "core::iter::traits::iterator::Iterator::map", nargs=2):
-            it, f = rt[2][0][2]
-            cl, ups = mir.closure_of(f)
-            if is_call(it, "into_iter", nargs=1) and it[2][0] == cr.arg(b, 2) and cl and len(ups) == 1 and unref(ups[0]) == cr.arg(b, 1):
-                cb = prog.body(cl)
-                crt = cb.return_term()
-                item = ("arg", 2, cb.names.get(2))
+        sm = loops.seq_map(prog, b, rt)
+        if sm is not None:
+            it, lam = sm
+            REG, ITEMS = cr.arg(b, 1), cr.arg(b, 2)
+            if lam.kind != "fn" and unref(it) in (ITEMS, ("var", 2, b.names.get(2))):
+                crt = mir.simplify(lam.outer(lam.result))
                 if elem == "into_portable":
-                    ok = is_call(crt, "IntoPortable::into_portable", nargs=2) and crt[2][0] == item and _is_upvar0(cb, crt[2][1])
+                    ok = is_call(crt, "IntoPortable::into_portable", nargs=2) and crt[2][0] == lam.item and unref(crt[2][1]) == REG
                 else:
-                    ok = is_call(crt, "Registry::register_type", nargs=2) and unref(crt[2][1]) == item and _is_upvar0(cb, crt[2][0])
-                detail = "into_iter().map(|i| %s).collect()" % path_str(crt)
+                    ok = is_call(crt, "Registry::register_type", nargs=2) and unref(crt[2][1]) == lam.item and unref(crt[2][0]) == REG
+                detail = "each item i of the argument, in order -> %s (%s form)" % (path_str(crt), lam.kind)
         chk.expect(ok, "R2.3", fn.split("::")[-1], b.where(), detail, cfg)
 
 
